@@ -122,8 +122,11 @@ func runProgram(rep *vk.Report, prop string, prog program, facets []string, acco
 	var keyParts []string
 	alt := false // following the A1 alternative
 	for xi = range prog.Execs {
-		l0, d0, _ := m0.runExec(xi)
-		l1, d1, _ := m1.runExec(xi)
+		l0, d0, t0 := m0.runExec(xi)
+		l1, d1, t1 := m1.runExec(xi)
+		if t1 > t0 {
+			t0 = t1
+		}
 		if d0 || d1 {
 			if account {
 				rep.Count("programs_truncated_model_diverges", 1)
@@ -134,7 +137,7 @@ func runProgram(rep *vk.Report, prop string, prog program, facets []string, acco
 		if n := len(facetLines(l1, "inv")); n > inv {
 			inv = n
 		}
-		real, runaway, disturbed := rp.runExec(xi, inv)
+		real, runaway, disturbed := rp.runExec(xi, inv, t0)
 		if runaway {
 			return "inv", fmt.Sprintf("execution did not terminate within the model's bound of %d invocations (run-away guard)", inv), xi
 		}
